@@ -5,6 +5,7 @@ import (
 	"math/rand"
 	"os"
 	"strings"
+	"sync/atomic"
 	"testing"
 	"testing/synctest"
 	"time"
@@ -36,7 +37,7 @@ func rejectedInputs(valid, rootReceiver string) map[string]string {
 
 func TestRejectedReloadKeepsRunningConfig(t *testing.T) {
 	run := vf.Cur()
-	sub := run.Sub("rejected-reload", "a valid generated configuration is running with traffic on the real app (virtual time); the file is replaced by each class of rejected input (YAML error, validation errors, template file that fails to parse, tracing configuration that cannot be applied, receiver that fails to build) and App.Reload is called: it must return an error, GET /status must still serve the old configuration, GET /alerts must still show the old routing (receivers), and notifications must keep following the old configuration; finally a different valid configuration is loaded: the reload must succeed, the text served by GET /status must load back to a tree that routes probe label sets exactly like the new configuration, GET /alerts must show the new routing and the reload metric must read 1; non-trivial = >=1 reload was rejected and the old routing was re-observed afterwards; distinct by (seed, class)", 20)
+	sub := run.Sub("rejected-reload", "a valid generated configuration is running with traffic on the real app (virtual time); the file is replaced by each class of rejected input (YAML error, validation errors, template file that fails to parse, tracing configuration that cannot be applied, receiver that fails to build) and App.Reload is called: it must return an error, GET /status must still serve the old configuration, GET /alerts must still show the old routing (receivers), and notifications must keep following the old configuration; no reload may hang (real-time watchdog of 2 min per case); finally a different valid configuration is loaded: the reload must succeed, the text served by GET /status must load back to a tree that routes probe label sets exactly like the new configuration, GET /alerts must show the new routing and the reload metric must read 1; non-trivial = >=1 reload was rejected and the old routing was re-observed afterwards; distinct by (seed, class)", 20)
 	os.MkdirAll("/verif/props/c17/testdata", 0o755)
 	n := run.N(60, 3000)
 	vf.Parallel(t, n, 16, func(t *testing.T, i int) {
@@ -47,6 +48,15 @@ func TestRejectedReloadKeepsRunningConfig(t *testing.T) {
 		dir := sysrun.ScratchDir("C17", "reload", i)
 		defer os.RemoveAll(dir)
 		lsets := gen.LabelSets(r, 4)
+		// "never hangs": a reload that never returns (e.g. a lock that is not released on the rejection
+		// path) leaves the bubble stuck for good - its clock cannot advance past a goroutine blocked on a
+		// mutex. Real-time watchdog, far above the ~1 s a case takes.
+		var step atomic.Value
+		step.Store("start")
+		stop := run.Watchdog(2*time.Minute, func() {
+			sub.Violation("reload-never-returned", map[string]any{"seed": sub.Seed(i), "stuck_at": step.Load(), "running_config": valid, "note": "the case did not finish within 2 minutes of real time (cases take about a second)"})
+		})
+		defer stop()
 		synctest.Test(t, func(t *testing.T) {
 			in, err := sim.Start(sim.Options{ConfigYAML: valid, Dir: dir})
 			if err != nil {
@@ -69,7 +79,9 @@ func TestRejectedReloadKeepsRunningConfig(t *testing.T) {
 			}
 			rejected := 0
 			for _, k := range shuffled(r, names) {
+				step.Store("reload with rejected input of class " + k)
 				err := in.Reload(classes[k])
+				step.Store("after reload of class " + k)
 				time.Sleep(time.Second)
 				w := map[string]any{"seed": sub.Seed(i), "class": k, "rejected_input": classes[k], "running_config": valid}
 				if err == nil {
@@ -131,6 +143,7 @@ func TestRejectedReloadKeepsRunningConfig(t *testing.T) {
 			cfgB.Route.Receiver = cfgB.Receivers[len(cfgB.Receivers)-1].Name
 			validB := cfgB.YAML()
 			rootB := model.Resolve(cfgB.Route)
+			step.Store("reload with a valid configuration after the rejected ones")
 			if err := in.Reload(validB); err != nil {
 				sub.Inconclusive("reload of a valid generated configuration rejected: " + err.Error())
 				return
